@@ -546,6 +546,18 @@ impl<T: Send> MpmcShared<T> {
     }
   }
 
+  /// Removes a still-linked async receive waiter. A future (or stream) that was
+  /// parked by an earlier poll can complete on a later poll without having been
+  /// selected by a sender (spurious re-poll after another route delivered an
+  /// item); its record must leave the queue before the future is released, or
+  /// a later sender "wakes" the dead record and the item strands.
+  pub(crate) fn unlink_async_receiver(&self, state_ptr: *const AtomicU8) {
+    let mut guard = self.internal.lock();
+    guard
+      .waiting_async_receivers
+      .retain(|w| w.state != state_ptr);
+  }
+
   /// Batch counterpart of `poll_recv_internal`.
   pub(crate) fn poll_recv_batch_internal(
     &self,
